@@ -73,31 +73,40 @@ def admon_inputs(chk):
         if r:
             yield r
     # bounded-exhaustive: core alphabet deep, wide alphabet shallow
-    deep = 4 if quick else 6
-    for seq in G.exhaustive(G.CORE, deep):
+    for seq in G.exhaustive(G.CORE, 4 if quick else 5):
         r = emit(seq, "exh-core")
         if r:
             yield r
-    for seq in G.exhaustive(G.WIDE, 2 if quick else 3):
+    if not quick:
+        for seq in G.exhaustive(G.CORE6, 6):
+            r = emit(seq, "exh-core6")
+            if r:
+                yield r
+    for seq in G.exhaustive(G.WIDE, 2):
         r = emit(seq, "exh-wide")
         if r:
             yield r
+    if not quick:
+        for seq in G.exhaustive(G.WIDE[:22], 3):
+            r = emit(seq, "exh-wide22")
+            if r:
+                yield r
     # sampled from the deeper layers
-    for _ in range(600 if quick else 30000):
+    for _ in range(600 if quick else 8000):
         n = rng.choice([5, 6, 7])
         r = emit([rng.choice(G.CORE) for _ in range(n)], "sample-core")
         if r:
             yield r
-    for _ in range(600 if quick else 30000):
+    for _ in range(600 if quick else 8000):
         n = rng.choice([3, 4, 5, 6])
         r = emit([rng.choice(G.WIDE) for _ in range(n)], "sample-wide")
         if r:
             yield r
-    for _ in range(700 if quick else 30000):
+    for _ in range(700 if quick else 10000):
         r = emit(G.rand_body(rng), "random")
         if r:
             yield r
-    for _ in range(500 if quick else 20000):
+    for _ in range(500 if quick else 10000):
         r = emit(G.structured_body(rng), "structured")
         if r:
             yield r
@@ -145,9 +154,11 @@ def part_admon(chk):
                                    "lines": lines, "impl": res, "code": code}, True)
     chk.extra["admon"] = {"cases": len(cases), "layers": layers, "impl_errors": errs,
                           "region_counts": hits, "spec_deviations_in_region": viol_in_region,
-                          "exhaustive": "core alphabet (8 classes) up to length %d, wide alphabet (%d classes) up to "
-                                        "length %d" % (4 if chk.tier == "quick" else 6, len(G.WIDE),
-                                                       2 if chk.tier == "quick" else 3)}
+                          "exhaustive": ("core alphabet (8 line classes) up to length 4, wide alphabet (%d classes) up to "
+                                         "length 2" % len(G.WIDE)) if chk.tier == "quick" else
+                                        ("core alphabet (8 line classes) up to length 5, 6 classes up to length 6, wide "
+                                         "alphabet (%d classes) up to length 2 and its first 22 classes up to length 3"
+                                         % len(G.WIDE))}
 
 
 # ---------------------------------------------------------------- B. metadata
@@ -157,7 +168,7 @@ def meta_inputs(chk):
     seen = set()
     for seq in itertools.chain(G.exhaustive(G.META_CORE, 3 if quick else 5),
                                G.exhaustive(G.META_ALPHA, 2 if quick else 3),
-                               (G.rand_meta_lines(rng) for _ in range(800 if quick else 30000))):
+                               (G.rand_meta_lines(rng) for _ in range(800 if quick else 10000))):
         t = tuple(seq)
         if t in seen or not ascii_ok(seq):
             continue
